@@ -1,8 +1,11 @@
 #!/bin/sh
 # The repository's pinned suite with the MANIFOLD_VERIF guard OFF (no hook is compiled in).
+# Built outside /repo (its _build directory is tracked by the snapshot commit and must stay untouched).
 set -e
-if [ ! -f /repo/_build/build.ninja ]; then
-  cmake -G Ninja -S /repo -B /repo/_build -DMANIFOLD_TEST=ON -DMANIFOLD_PAR=OFF -DMANIFOLD_DOWNLOADS=OFF -DCMAKE_BUILD_TYPE=Release
+B="$(cd "$(dirname "$0")" && pwd)/build/baseline_off"
+mkdir -p "$B"
+if [ ! -f "$B/build.ninja" ]; then
+  cmake -G Ninja -S /repo -B "$B" -DMANIFOLD_TEST=ON -DMANIFOLD_PAR=OFF -DMANIFOLD_DOWNLOADS=OFF -DCMAKE_BUILD_TYPE=Release
 fi
-cmake --build /repo/_build -j16
-ctest --test-dir /repo/_build -j8 --timeout 900
+cmake --build "$B" -j16
+ctest --test-dir "$B" -j8 --timeout 900
